@@ -36,6 +36,12 @@ type fstore struct {
 	imageDone        func()
 	Failed           bool
 	MaxBatchBytes    int // largest Size() of a batch at the time of its Write
+	// single writes INTO a batch (Put / Delete / DeleteRange on a batch, also the batches behind Update / Write) are counted
+	// too; the FailWriteAt-th of them returns fault.ErrInjected and stages nothing ("error injected into the k-th write")
+	Writes      int
+	FailWriteAt int
+	FailedWrite bool
+	FailedKey   []byte
 }
 
 func newFstore(inner db.KeyValueStore) *fstore { return &fstore{KeyValueStore: inner} }
@@ -116,6 +122,40 @@ func (s *fstore) DeleteRange(a, b []byte) error {
 type fbatch struct {
 	db.IndexedBatch
 	s *fstore
+}
+
+// write counts one write into a batch; true = this one fails.
+func (b *fbatch) write(k []byte) bool {
+	b.s.mu.Lock()
+	defer b.s.mu.Unlock()
+	b.s.Writes++
+	if b.s.FailWriteAt == b.s.Writes {
+		b.s.FailedWrite = true
+		b.s.FailedKey = append([]byte{}, k...)
+		return true
+	}
+	return false
+}
+
+func (b *fbatch) Put(k, v []byte) error {
+	if b.write(k) {
+		return fault.ErrInjected
+	}
+	return b.IndexedBatch.Put(k, v)
+}
+
+func (b *fbatch) Delete(k []byte) error {
+	if b.write(k) {
+		return fault.ErrInjected
+	}
+	return b.IndexedBatch.Delete(k)
+}
+
+func (b *fbatch) DeleteRange(a, z []byte) error {
+	if b.write(a) {
+		return fault.ErrInjected
+	}
+	return b.IndexedBatch.DeleteRange(a, z)
 }
 
 func (b *fbatch) Write() error {
